@@ -170,7 +170,9 @@ CHECKS.update({
              "equal to the model under the path condition, i.e. for every naming the path represents.",
         note="Trusted: reference scoping model (vf/h_c07.py Oracle), rowan tree / hashbrown / string models, MIR dump, z3; engine validated "
              "differentially against native (vf/s2validate) and each counterexample is confirmed by engine==native on the concrete text. "
-             "Bounds: <= 3 (quick) / 4 (thorough) items per program, nesting <= 2 / 3, one-character names from a pool of 3 / 4.",
+             "Bounds: quick <= 3 items per program, nesting <= 2, names from a pool of 3; thorough 3 items nested to 3 plus all 4-item programs "
+             "of nesting 1, pool of 4; use positions: assignment target, expression statement, initializer, gate / measure operand, indexed target, "
+             "binary operand, if / while condition, width designator.",
         technique=S2, design="6/C07"),
     "C09": dict(
         text="Declarations whose width / register-length literal is a string of 1-11 SYMBOLIC decimal digits (all values up to 10^11 > 2^33), "
